@@ -835,7 +835,7 @@ bool qstr_is_ip4addr(const char *str) {
             *s2 = '\0';
 
         int n;
-        if (*s1 == '\0' || qstrtest(isdigit, s1) == false
+        if (*s1 == '\0' || strlen(s1) > 3 || qstrtest(isdigit, s1) == false
                 || (n = atoi(s1)) < 0 || n >= 256) {
             free(dupstr);
             return false;
